@@ -393,8 +393,37 @@ def _worker(conn):
             conn.send(("error", f"{type(e).__name__}: {str(e)[:300]}"))
 
 
-def interp_err_class(r):
+def abort_class(mb):
+    """structural cause of a runtime CHECK failure (process abort) that can be read off the model: an integer ADD/SUB whose
+    output scale is so much smaller than its input scales that the kernel's output multiplier 2*max(s1,s2)/(2^left_shift*s_out)
+    is >= 1 (left_shift = 15 for int16, 20 for int8), which the runtime asserts against"""
+    try:
+        m = read(mb)
+        for sg in m.subgraphs:
+            for op in sg.operators:
+                name = BO_NAME.get(m.operatorCodes[op.opcodeIndex].builtinCode)
+                if name not in ("ADD", "SUB") or len(op.inputs) != 2 or len(op.outputs) != 1:
+                    continue
+                ts = [sg.tensors[i] for i in list(op.inputs) + list(op.outputs)]
+                qs = [t.quantization for t in ts]
+                if any(q is None or q.scale is None or len(q.scale) != 1 for q in qs):
+                    continue
+                ty = ts[2].type
+                if ty not in (TT.INT16, TT.INT8):
+                    continue
+                ls = 15 if ty == TT.INT16 else 20
+                mult = 2.0 * max(float(qs[0].scale[0]), float(qs[1].scale[0])) / ((1 << ls) * float(qs[2].scale[0]))
+                if mult >= 1.0:
+                    return f"{name}:int{16 if ty == TT.INT16 else 8}-output-multiplier>=1"
+    except Exception:  # noqa: BLE001
+        return None
+    return None
+
+
+def interp_err_class(r, mb=None):
     """call-site class of an interpreter failure: kernel file + failed condition, digits masked"""
+    if isinstance(r, tuple) and r[0] == "abort" and mb is not None:
+        return "abort:" + (abort_class(mb) or "unclassified")
     msg = re.sub(r"\d+", "N", str(r[1] if isinstance(r, tuple) else r))
     msg = msg.replace("RuntimeError: ", "")
     return (str(r[0]) + ":" if isinstance(r, tuple) else "") + msg[:70]
